@@ -130,6 +130,66 @@ func runCalciumLockLoss(c *Case, res *Result, cfg lockCfg) {
 				sim.Settle()
 				continue
 			}
+			if op.Kind == "remove" {
+				// the lock is lost while the first step of a remove (give the resources back) is
+				// in flight with a party that finishes what it started; the second step (remove
+				// the container, delete the record) must not begin under the lost lock
+				live := w.liveWorkloads()
+				if len(live) == 0 {
+					continue
+				}
+				id := live[i%len(live)]
+				w.shadow.mu.Lock()
+				w.shadow.slowUsage = slow
+				w.shadow.mu.Unlock()
+				done := make(chan error, 1)
+				t0 := time.Now()
+				go func() {
+					ch, err := w.core.cal.RemoveWorkload(ctx, []string{id}, true)
+					if err != nil {
+						done <- err
+						return
+					}
+					var last error
+					for m := range ch {
+						if !m.Success {
+							last = fmt.Errorf("remove reported failure")
+						}
+					}
+					done <- last
+				}()
+				var revokedAt time.Time
+				if op.Loss != "" {
+					time.Sleep(3*time.Second + time.Duration(op.GapMs%4000)*time.Millisecond + offGrid(1))
+					_, lease := w.etcd.FirstCreated("/" + lockPrefix + "/" + fmt.Sprintf(cluster.WorkloadLock, id) + "/")
+					if lease != 0 && w.etcd.RevokeLease(lease) {
+						revokedAt = time.Now()
+						res.Probes["lease_revoked"]++
+						res.Probes["calcium_lock_revoked_during_first_step"]++
+					}
+				}
+				err := <-done
+				took := time.Since(t0)
+				w.shadow.mu.Lock()
+				w.shadow.slowUsage = 0
+				w.shadow.mu.Unlock()
+				sim.Settle()
+				res.OpsRun++
+				res.Nontrivial = true
+				_, still := eng.Get(id)
+				if revokedAt.IsZero() {
+					res.Probes["calcium_op_without_loss"]++
+					if err != nil || still {
+						viol("cancelled-without-loss", "calcium", fmt.Sprintf("op#%d: remove of %s failed after %v although its lock was never lost: %v (container still there: %v)", i, shortID(id), took, err, still))
+					}
+				} else {
+					res.Probes["loss_observed"]++
+					if !still {
+						viol("operation-continues-after-lock-loss", "calcium:revoke-during-first-step", fmt.Sprintf("op#%d: the lease of the workload lock of %s was revoked %v into a remove whose first step lasted %v; the second step ran all the same and removed the container %v after the lock was lost (bound %v)", i, shortID(id), revokedAt.Sub(t0), slow, time.Since(revokedAt), bound))
+					}
+				}
+				continue
+			}
 			id := ids[i%len(ids)]
 			typ := cluster.WorkloadStop
 			before := len(eng.CancelledOps())
